@@ -105,4 +105,6 @@ VARIANTS = [
     V("N-evaluate-clips-written-out-in-the-task", D, '    (\n        evaluated_clips,\n        true_classes,\n        predicted_classes_scores,\n    ) = _evaluate_clips(clip_predictions, clip_annotations, encoder)\n', '    evaluated_clips = []\n    true_classes = []\n    scores_rows = []\n    for annotations, predictions in iterate_over_valid_clips(\n        clip_predictions=clip_predictions,\n        clip_annotations=clip_annotations,\n    ):\n        true_class, predicted_classes, evaluated_clip = evaluate_clip(\n            clip_annotations=annotations,\n            clip_predictions=predictions,\n            encoder=encoder,\n        )\n        true_classes.extend(true_class)\n        scores_rows.extend(predicted_classes)\n        evaluated_clips.append(evaluated_clip)\n    predicted_classes_scores = np.array(scores_rows)\n', None, also=((D, 'def _evaluate_clips(\n    clip_predictions: Sequence[data.ClipPrediction],\n    clip_annotations: Sequence[data.ClipAnnotation],\n    encoder: Encoder,\n):\n    """Evaluate all examples in the given model run and evaluation set."""\n    evaluated_clips = []\n    true_classes = []\n    predicted_classes_scores = []\n\n    for annotations, predictions in iterate_over_valid_clips(\n        clip_predictions=clip_predictions,\n        clip_annotations=clip_annotations,\n    ):\n        true_class, predicted_classes, evaluated_clip = evaluate_clip(\n            clip_annotations=annotations,\n            clip_predictions=predictions,\n            encoder=encoder,\n        )\n\n        true_classes.extend(true_class)\n        predicted_classes_scores.extend(predicted_classes)\n        evaluated_clips.append(evaluated_clip)\n\n    return evaluated_clips, true_classes, np.array(predicted_classes_scores)\n\n\n', ""),)),
     V("evaluate-clips-written-out-drops-empty-clips", D, '    (\n        evaluated_clips,\n        true_classes,\n        predicted_classes_scores,\n    ) = _evaluate_clips(clip_predictions, clip_annotations, encoder)\n', '    evaluated_clips = []\n    true_classes = []\n    scores_rows = []\n    for annotations, predictions in iterate_over_valid_clips(\n        clip_predictions=clip_predictions,\n        clip_annotations=clip_annotations,\n    ):\n        true_class, predicted_classes, evaluated_clip = evaluate_clip(\n            clip_annotations=annotations,\n            clip_predictions=predictions,\n            encoder=encoder,\n        )\n        true_classes.extend(true_class)\n        scores_rows.extend(predicted_classes)\n        if evaluated_clip.matches:\n            evaluated_clips.append(evaluated_clip)\n    predicted_classes_scores = np.array(scores_rows)\n', "R08.1", also=((D, 'def _evaluate_clips(\n    clip_predictions: Sequence[data.ClipPrediction],\n    clip_annotations: Sequence[data.ClipAnnotation],\n    encoder: Encoder,\n):\n    """Evaluate all examples in the given model run and evaluation set."""\n    evaluated_clips = []\n    true_classes = []\n    predicted_classes_scores = []\n\n    for annotations, predictions in iterate_over_valid_clips(\n        clip_predictions=clip_predictions,\n        clip_annotations=clip_annotations,\n    ):\n        true_class, predicted_classes, evaluated_clip = evaluate_clip(\n            clip_annotations=annotations,\n            clip_predictions=predictions,\n            encoder=encoder,\n        )\n\n        true_classes.extend(true_class)\n        predicted_classes_scores.extend(predicted_classes)\n        evaluated_clips.append(evaluated_clip)\n\n    return evaluated_clips, true_classes, np.array(predicted_classes_scores)\n\n\n', ""),)),
     V("affinity-matrix-allocated-transposed(C07)", "src/soundevent/evaluation/match.py", "    cost_matrix = np.zeros(shape=(len(source), len(target)))", "    cost_matrix = np.zeros(shape=(len(target), len(source)))", "C07/R07.1"),
+    # G.12
+    V("no-predictions-rejected(G.12)", "src/soundevent/evaluation/tasks/sound_event_detection.py", "    ) = _evaluate_clips(clip_predictions, clip_annotations, encoder)", "    ) = _evaluate_clips(clip_predictions, clip_annotations, encoder)\n\n    if not clip_predictions:\n        raise ValueError(\"Nothing to evaluate.\")", "G.12"),
 ]
